@@ -243,4 +243,22 @@ theorem csr_row_subset (A : CSR α) (rows : List Nat) (x : Tensor α) (hx : x.sh
         y.get [i] = sumRange A.ncols (fun c => csrDense A rows[i] c * x.get [c]) :=
   csrRowSubset_spec A rows x hx hr
 
+/-! ## words over `{T, H}` -/
+
+/-- **Transposition is an involution on every operator class** (model side of `.T.T`, `.H.H`, `.T.H = .H.T`):
+operands, Kronecker factor tuples, block operators, subspace operators. -/
+theorem transpose_involutive (B : Op α) (ops : List (Op α)) (Bb : BaseBlock α) (S : Subspace α) :
+    B.T.T = B ∧ kronT (kronT ops) = ops ∧ Bb.T.T = Bb ∧ S.T.T = S ∧ S.H.H = S ∧ S.T.H = S.H.T :=
+  ⟨Op.T_T B, kronT_kronT ops, BaseBlock.T_T Bb, Subspace.T_T S, Subspace.H_H S, Subspace.T_H_comm S⟩
+
+/-- **`X.T.H` acts like `X`** for a `SubspaceOperator` (real data): the adjoint carries the
+`_is_transpose` flag over, so transposing the `B_j` and flipping the flag cancel — for any family of
+subspaces and nonsymmetric `B_j`.  (Dropping the flag in `_adjoint` makes this false; the executable
+model is then the witness the correspondence stream compares with.) -/
+theorem subspace_T_H_same (S : Subspace α) (x : Tensor α) (n : Nat)
+    (hok : ∀ p ∈ S.Ps.zip S.Bs, SubOk n p) (hx : x.shape = [n]) :
+    ∃ y y', subspaceMatvec S.T.H.Ps S.T.H.Bs S.T.H.isT x = .ok y ∧ subspaceMatvec S.Ps S.Bs S.isT x = .ok y' ∧
+      y.shape = [n] ∧ y'.shape = [n] ∧ ∀ r, r < n → y.get [r] = y'.get [r] :=
+  subspace_TH_same S x n hok hx
+
 end Pyiga.Props.C16
